@@ -151,6 +151,10 @@ GOLDEN = [
      bits(2, 8) + bits(4, 8) + bits(4, 8), "struct-literal-fields-evaluated-in-name-order"),
     ("golden-mul-literal-operand-once", "pub fn main(z: u8) -> (u8, u8, i8, i8) { let mut a = 0u8; let r = ({ a = a + 1u8; a }) * 3u8; let mut b = 0i8; let q = -2i8 * ({ b = b + 1i8; b }); (r, a, q, b) }",
      bits(3, 8) + bits(1, 8) + bits(-2, 8) + bits(1, 8), None),
+    ("golden-join-iter-over-join-result", "pub fn main(z: u8) -> u8 { let a = [1u8, 2u8]; let b = [2u8]; let c = [(false, 7u8), (true, 9u8)]; let mut r = 0u8; let j = join(a, b); for ((f, x), (_, y)) in join_iter(j, c) { r = r + x + y; } r }",
+     bits(18, 8), None),
+    ("golden-if-condition-effects-kept", "pub fn main(z: u8) -> (u8, u8) { let mut n = 5u8; let r = if { n = n + 1u8; n > 5u8 } { n + 10u8 } else { n + 20u8 }; (r, n) }",
+     bits(16, 8) + bits(6, 8), None),
     ("golden-assign-zero-sized", "pub fn main(z: u8) -> u8 { let mut a = [(); 3]; a[1usize] = (); 7u8 }",
      bits(7, 8), None),
     ("golden-short-circuit", "pub fn main(z: u8) -> (bool, u8, bool, u8) { let mut x = 1u8; let r = false && ({ x = 9u8; true }); let mut y = 1u8; let s = true || ({ y = 9u8; false }); (r, x, s, y) }",
